@@ -147,7 +147,7 @@ CHECKS["C01"] = dict(
           "cursor and the generator-level classification; the whole stream through packet_generator is compared with the per-packet "
           "results."),
     note="Bounded/random exploration of documents (seeded), not exhaustive; cases whose referenced values leave the exact small domain are "
-         "undefined and accepted; character codecs trusted; mission documents are not yet replayed through an independent reader. " + TRUSTED,
+         "undefined and accepted; character codecs trusted. The bundled / mission documents are read by an independent reader (harness/xread.py) and their recorded packets decoded (CTIM in the thorough tier only). " + TRUSTED,
     technique="TLA+ specification of the whole decode path evaluated by TLC on randomly generated documents and streams; end-state conformance against the real generator",
     design="5 C01")
 
